@@ -375,6 +375,62 @@ func main() {
 		}
 		logf("RESULT replayrace: master store%d (restarted follower: %v): %d of 10 overwritten keys read back with a value != 2; %s", m4.MasterIdx+1, m4.MasterIdx == f, old, summary(got, e))
 
+	case "lww":
+		// no fault at all: overwrite across flush generations on every replica
+		K := func(v int64) string {
+			var b strings.Builder
+			for i := 0; i < 10; i++ {
+				b.WriteString(pt(fmt.Sprintf("K%d", i), 0, v))
+			}
+			return b.String()
+		}
+		check := func(label string, want int64) {
+			got, e := c.read()
+			bad := 0
+			for i := 0; i < 10; i++ {
+				if got[fmt.Sprintf("K%d@%d", i, T0)] != want {
+					bad++
+				}
+			}
+			logf("%s: %d of 10 keys differ from %d (%s)", label, bad, want, summary(got, e))
+		}
+		flushAll := func() {
+			for i := 0; i < 3; i++ {
+				if err := c.StoreCtl(i, "POST", "/verif/flush", ""); err != nil {
+					logf("flush store%d: %v", i+1, err)
+				}
+			}
+		}
+		c.write(K(1))
+		time.Sleep(time.Second)
+		check("after v1", 1)
+		flushAll()
+		check("after v1 + flush", 1)
+		c.write(K(2))
+		check("after v2", 2)
+		flushAll()
+		check("after v2 + flush", 2)
+		c.write(pt("other", 5, 1))
+		check("after v2 + flush + other write", 2)
+		c.write(K(3))
+		check("after v3 (memtable over two files)", 3)
+		flushAll()
+		check("after v3 + flush", 3)
+		time.Sleep(8 * time.Second)
+		check("8 s later", 3)
+		for i := 0; i < 3; i++ {
+			_ = c.StoreCtl(i, "POST", "/verif/merge?full=1", "")
+		}
+		check("after out-of-order merge", 3)
+		c.write(K(4))
+		check("after v4", 4)
+		k := mv.MasterIdx
+		c.Stores[k].Kill()
+		m4 := c.waitMaster(k)
+		logf("master killed; meta: %v", m4)
+		c.write(pt("other", 6, 1))
+		check("after master kill", 4)
+
 	case "stale":
 		k := mv.MasterIdx
 		n := 0
